@@ -42,6 +42,8 @@ type RunOpts struct {
 	// TouchAll: run the read-only operations (type inference, printing, hashing, serializing) on
 	// every live value after each step, so that lazily filled caches are exercised
 	TouchAll bool
+	// KeysByEquals: the reference keys hashes by Equals (Ref.ByEquals) - property C09
+	KeysByEquals bool
 }
 
 // ProbeKeys are looked up in every hash result (present or not)
@@ -54,7 +56,7 @@ func Run(ops []Op, opt RunOpts) *History {
 	snaps := make([]*PV, 0, len(ops))
 	texts := make([]Texts, 0, len(ops))
 	refPool := make([]*PV, 0, len(ops))
-	ref := &Ref{}
+	ref := &Ref{ByEquals: opt.KeysByEquals}
 	for i, o := range ops {
 		res, errClass := ApplyImpl(pool, o)
 		var out Out
